@@ -1135,6 +1135,17 @@ static void sc_fw(SB* s, Toks* k)
 		sb_puts(s, " bytes=");
 		sb_hexq(s, bytes, n);
 		free(bytes);
+		/* the objects are as they were: the same calls on a stream that accepts everything */
+		f_reset(g_f);
+		sb_printf(s, " again:fh=%d", sbdf_fh_write_cur(g_f));
+		sb_printf(s, " tm=%d", sbdf_tm_write(g_f, b.tm));
+		sb_puts(s, " ts=");
+		for (i = 0; i < b.nts; ++i) sb_printf(s, "%s%d", i ? "," : "", sbdf_ts_write(g_f, b.ts[i]));
+		sb_printf(s, " end=%d", sbdf_ts_write_end(g_f));
+		bytes = f_slurp(g_f, &n);
+		sb_puts(s, " bytes=");
+		sb_hexq(s, bytes, n);
+		free(bytes);
 	}
 	built_free(&b);
 	sb_printf(s, " live=%ld", vf_live - live0);
